@@ -114,10 +114,18 @@ class TimeEnv:
         vals = [r[name] for r in self.rows]
         if isinstance(self.zi, int):
             return vals[self.zi]
-        out = vals[-1]
+        lo, hi = min(vals), max(vals)
+        if lo == hi:
+            return lo
+        from .values import _width_for
+        w = _width_for(lo, hi)
+        zt = self.zi.t
+        out = z3.BitVecVal(vals[-1] % (1 << w), w)
         for k in range(len(vals) - 2, -1, -1):
-            out = i_ite(i_eq(self.zi, k), vals[k], out)
-        return out
+            if vals[k] == vals[k + 1] and False:
+                continue
+            out = z3.If(zt == z3.BitVecVal(k, zt.size()), z3.BitVecVal(vals[k] % (1 << w), w), out)
+        return SymInt(out, lo, hi)
 
     # ---- clock
     def now(self):
@@ -312,9 +320,9 @@ def _parse_hm(units):
                 h = _digit_val(hu[0]) * 10 + _digit_val(hu[1]) if hd == 2 else _digit_val(hu[0])
                 m = _digit_val(mu[0]) * 10 + _digit_val(mu[1]) if md == 2 else _digit_val(mu[0])
                 if isinstance(h, SymInt):
-                    h = SymInt.mk(h.t, 0, 23)
+                    h = h.refine(0, 23)
                 if isinstance(m, SymInt):
-                    m = SymInt.mk(m.t, 0, 59)
+                    m = m.refine(0, 59)
                 return h, m
     raise ValueError("time data does not match format (symbolic)")
 
@@ -608,18 +616,24 @@ class STimedelta:
 
 
 class SDateTime:
-    """naive datetime: seconds since the epoch (exact), plus cached h/m when known"""
+    """naive datetime: seconds since the epoch = base (concrete) + off (symbolic, small), plus
+    cached h/m when known"""
 
-    def __init__(self, secs, h=None, m=None, s=None, day=None, lazy=None):
-        self._secs = secs
+    def __init__(self, secs, h=None, m=None, s=None, day=None, lazy=None, base=0):
+        self._off = secs
+        self._base = base
         self._h, self._m, self._s, self._day = h, m, s, day
         self._lazy = lazy
 
     @property
+    def off(self):
+        if self._off is None and self._lazy is not None:
+            self._off = self._lazy()
+        return self._off
+
+    @property
     def secs(self):
-        if self._secs is None and self._lazy is not None:
-            self._secs = self._lazy()
-        return self._secs
+        return self._base + self.off
 
     def _fields(self):
         if self._h is None:
@@ -657,30 +671,35 @@ class SDateTime:
     def timestamp(self):
         raise Unsupported("datetime.timestamp() of a naive symbolic datetime")
 
+    def _shift(self, d):
+        return SDateTime(self.off + d, base=self._base)
+
     def __add__(self, o):
         if isinstance(o, STimedelta):
             if o.us:
                 raise Unsupported("microseconds")
-            return SDateTime(self.secs + o.secs)
+            return self._shift(o.secs)
         if isinstance(o, _dt.timedelta):
-            return SDateTime(self.secs + int(o.total_seconds()))
+            return self._shift(int(o.total_seconds()))
         return NotImplemented
 
     __radd__ = __add__
 
     def __sub__(self, o):
         if isinstance(o, SDateTime):
-            return STimedelta(seconds=self.secs - o.secs)
+            return STimedelta(seconds=(self._base - o._base) + (self.off - o.off))
         if isinstance(o, STimedelta):
-            return SDateTime(self.secs - o.secs)
+            return self._shift(-o.secs)
         if isinstance(o, _dt.timedelta):
-            return SDateTime(self.secs - int(o.total_seconds()))
+            return self._shift(-int(o.total_seconds()))
         return NotImplemented
 
     def _cmp(self, o, op):
         if not isinstance(o, SDateTime):
             return NotImplemented
-        return getattr(SymInt._coerce(self.secs), op)(o.secs)
+        a = self.off
+        b = (o._base - self._base) + o.off
+        return getattr(SymInt._coerce(a), op)(b)
 
     def __lt__(self, o):
         return self._cmp(o, "__lt__")
@@ -755,7 +774,7 @@ class SDateTimeClass(metaclass=_DTMeta):
             if s.kind != "str":
                 raise TypeError("strptime() argument 1 must be str, not bytes")
             h, m = _parse_hm(list(s.items))
-            return SDateTime(EPOCH_1900 + h * 3600 + m * 60, h=h, m=m, s=0, day=EPOCH_1900 // DAY)
+            return SDateTime(h * 3600 + m * 60, h=h, m=m, s=0, day=EPOCH_1900 // DAY, base=EPOCH_1900)
         raise Unsupported("datetime.strptime format %r" % fmt)
 
     @staticmethod
